@@ -272,6 +272,9 @@ func checkC01(r *Report) {
 	mapOrderRule(r, p, "C01.d/MAP-ORDER", threeWayFns(p, "semver"))
 	nSym := signSymmetryRule(r, p, "C01.d/SIGN-SYMMETRIC", threeWayFns(p, "semver"))
 	r.floor("C01.d/SIGN-SYMMETRIC", "three-way comparators of package semver", nSym, 10)
+	// e. LOOP-NONZERO: a return inside an element loop carries a non-zero sign
+	nLR := loopReturnRule(r, p, "C01.e/LOOP-NONZERO", threeWayFns(p, "semver"))
+	r.floor("C01.e/LOOP-NONZERO", "returns inside loops of the comparators of package semver", nLR, 15)
 }
 
 // tiebreakRule (deny-list): the comparator's final return must not be a
